@@ -54,6 +54,17 @@ def cone_samples(rng, with_range=True):
             d = Rm @ dloc
             s = rng.uniform(-20, 20, 3)
             envs.append({"alpha": alpha, "theta": th, "n": n, "d": d, "s": s, "t": s + d, "len": length})
+    # range test: the Euclidean distance decides (max = 10 in decide_cone), not the projection on the normal: off-axis targets inside the
+    # cone with proj < max <= dist must be rejected
+    for alpha, th, length in ((30.0, 25.0, 10.2), (30.0, 28.0, 11.0), (20.0, 18.0, 10.3), (30.0, 25.0, 9.9), (10.0, 0.0, 10.5), (10.0, 5.0, 9.95),
+                              (30.0, 29.0, 11.3)):
+        Rm = R.random(random_state=int(rng.integers(0, 2 ** 31))).as_matrix()
+        n = Rm @ np.array([0, 0, 1.0])
+        phi = rng.uniform(0, 2 * np.pi)
+        dloc = length * np.array([np.sin(np.radians(th)) * np.cos(phi), np.sin(np.radians(th)) * np.sin(phi), np.cos(np.radians(th))])
+        d = Rm @ dloc
+        s = rng.uniform(-20, 20, 3)
+        envs.append({"alpha": alpha, "theta": th, "n": n, "d": d, "s": s, "t": s + d, "len": length})
     return envs
 
 
@@ -371,4 +382,4 @@ def _obligations():
 
 
 def obligations():
-    return _obligations() + [labels_obligation("C20"), effects_obligation("C20")]
+    return _obligations() + [labels_obligation("C20"), selectors_obligation("C20"), effects_obligation("C20")]
